@@ -439,7 +439,7 @@ def shrink_item(item, rerun_case):
     mode = item["mode"]
     if mode == "c03e2e":
         return shrink_e2e(item, rerun_case)
-    if mode in ("c04cli", "c04os", "c19cli", "c04ev"):
+    if mode in ("c04cli", "c04os", "c19cli", "c04ev", "c03fig"):
         return item          # already small; their tokens are not those of a loop case
 
     def fails(case_line):
@@ -754,6 +754,11 @@ def c19_cli_cases(rng, count):
         cases.append(case(bench, n, "vcost=100000 prec=1000"))                       # no limit: n samples after tuning
         cases.append(case(bench, n, "mins=0.000003 tvia=cli vcost=100000 prec=1000"))  # a floor prolongs the run
         cases.append(case(bench, n, "mins=0.00001 maxs=0.0000031 tvia=builder vcost=100000 prec=10000"))
+    # a sample count from the environment / the command line and no sample size anywhere: the size is still tuned
+    for bench, _ in benches:
+        for via, n in (("env", 5), ("cli", 5), ("env", 1), ("env", 64)):
+            cases.append(f"bench={bench} via={via} mode=b n={n} s=- threads=1 vcost=100000 prec=10000 evlog=1")
+        cases.append(f"bench={bench} via=env mode=b n=7 s=- threads=1 maxs=0.000004 tvia=env vcost=100000 prec=100000 evlog=1")
     while len(cases) < count:
         bench, n = rng.choice(benches)
         cost = rng.choice([100_000, 250_000, 40_000])
@@ -788,13 +793,19 @@ def skip_ext_cases(rng, count):
     benches = [("vskip_attr", 1), ("vskip_grp", 1), ("vext_plain", 0)]
     cases = []
 
-    def case(bench, attr_skip, bskip, border, lim, which="maxs", n="-", cost=100_000, gen=300_000, tvia="builder"):
+    CSKIP = {"bare": 1, "true": 1, "false": 0, "env-true": 1, "env-false": 0}
+
+    def case(bench, attr_skip, bskip, border, lim, which="maxs", n="-", cost=100_000, gen=300_000, tvia="builder", cskip=None):
         eff = attr_skip if bskip is None else bskip
+        if cskip is not None:
+            eff = CSKIP[cskip]       # command line / environment (read by config_with_args) win over builder and attribute
         # a sample count can only come from the runner here (the benches set none): by the builder
         via = "attr" if n == "-" else "builder"
         toks = [f"bench={bench} via={via} mode=b n={n} s=1 threads=1 {which}={lim} tvia={tvia}"]
         if bskip is not None:
             toks.append(f"bskip={bskip} border={border}")
+        if cskip is not None:
+            toks.append(f"cskip={cskip}")
         toks.append(f"eskip={eff} vcost={cost} vgen={gen} evlog=1")
         return " ".join(toks)
     for bench, a in benches:
@@ -803,6 +814,10 @@ def skip_ext_cases(rng, count):
                 cases.append(case(bench, a, bskip, border, "0.000001"))
         cases.append(case(bench, a, 0, "sf", "0.000001", tvia="cli"))          # limit on the command line, skip by the builder
         cases.append(case(bench, a, 0, "mf", "0.0000012", which="mins", n=1))   # a floor instead of a ceiling
+        # skip_ext_time on the command line: bare flag, =true, =false; in the environment
+        for cskip in ("bare", "true", "false", "env-true", "env-false"):
+            cases.append(case(bench, a, None, "mf", "0.000001", tvia=("env" if cskip.startswith("env") else "cli"), cskip=cskip))
+        cases.append(case(bench, a, 1 - a, "sf", "0.000001", tvia="builder", cskip=("false" if a == 0 else "bare")))
     while len(cases) < count:
         bench, a = rng.choice(benches)
         bskip = rng.choice([None, 0, 0, 1])
@@ -813,8 +828,13 @@ def skip_ext_cases(rng, count):
         per = max(cost, 1000) if eff else cost + gen
         lim = decimal_secs(max(1, (k * per + rng.choice([-1000, 0, 1000])) // 1000))
         which = rng.choice(["maxs", "maxs", "mins"])
+        cskip = rng.choice([None, None, "bare", "true", "false", "env-true", "env-false"])
+        if cskip is not None:
+            eff = CSKIP[cskip]
+            per = max(cost, 1000) if eff else cost + gen
+            lim = decimal_secs(max(1, (k * per + rng.choice([-1000, 0, 1000])) // 1000))
         c = case(bench, a, bskip, rng.choice(["sf", "mf"]), lim, which=which, n=("-" if which == "maxs" else rng.randrange(1, 3)),
-                 cost=cost, gen=gen, tvia=rng.choice(["builder", "cli", "env"]))
+                 cost=cost, gen=gen, tvia=rng.choice(["builder", "cli", "env"]), cskip=cskip)
         if c not in cases:
             cases.append(c)
     return cases
@@ -828,3 +848,29 @@ def skip_ext_stream(name, cases):
                   describe="real runner on the virtual clock, generator time outside the timed sections, skip_ext_time from the attribute / "
                            "the group / Divan::skip_ext_time(false|true) before or after the limit: rounds read from the event log vs the "
                            "model driven by the same history with the resolved setting")
+
+
+# ---------------------------------------------------------------------------
+# C03: reported figures of collections too large to run (through stats_from_samples)
+# ---------------------------------------------------------------------------
+
+def fig_stream(name, rng, count):
+    cases = []
+    for sz in (1, 3, 65536, 2**31 - 1, 2**31, 2**31 + 1, 2**32 - 1):
+        for m in (0, 1, 2, 3, 4):
+            cases.append(f"s={sz} m={m}")
+    for sz, m in ((65536, 65535), (65536, 65536), (65537, 65536), (4096, 1048576 // 4), (100000, 42950)):
+        cases.append(f"s={sz} m={m}")          # products just below / at / above 2^32 with many samples
+    while len(cases) < count:
+        sz = rng.choice([rng.randrange(1, 2**32), 2**rng.randrange(0, 32), rng.randrange(1, 1000)])
+        m = rng.choice([rng.randrange(0, 6), rng.randrange(0, 300)])
+        c = f"s={sz} m={m}"
+        if c not in cases:
+            cases.append(c)
+
+    def nt(case, model_line):
+        d = dict(t.split("=") for t in case.split(" "))
+        return int(d["s"]) * int(d["m"]) >= 2**32
+    return Stream(name, "c03fig", cases, nontrivial=nt, crate="hx-loop", drv="loop",
+                  describe="Stats.sample_count / iter_count of a context holding m samples of size s (stats_from_samples), "
+                           "incl. s*m >= 2^32: iters = s*m as u64")
